@@ -3,6 +3,7 @@ spatialpandas counterparts: elements, arrays, exact affine images, coordinate su
 from __future__ import annotations
 
 import math
+import os
 
 import numpy as np
 
@@ -11,7 +12,8 @@ from spatialpandas.geometry import (
     LineArray, MultiLineArray, MultiPointArray, MultiPolygonArray, PointArray, PolygonArray, RingArray,
 )
 
-assert spatialpandas.__file__.startswith("/repo/"), spatialpandas.__file__
+REPO = os.environ.get("VERIF_REPO", "/repo")
+assert spatialpandas.__file__.startswith(REPO + "/"), spatialpandas.__file__
 
 NAN = 777777777
 PINF = 555555555
